@@ -18,12 +18,63 @@ func init() {
 func runC46(r *Report) {
 	fn := r.FnAnchor("R46a", "rueidis.(*Scanner).scan$1")
 	if fn != nil {
-		var calls []Site
-		for _, s := range Sites(fn, func(in ssa.Instruction) bool {
+		isNext := func(in ssa.Instruction) bool {
 			c, ok := in.(*ssa.Call)
 			return ok && !c.Call.IsInvoke() && strings.HasSuffix(Desc(c.Call.Value), ".next")
+		}
+		errStoredOf := func(c *ssa.Call) bool {
+			e1 := extractOf(c, 1)
+			if e1 == nil {
+				return false
+			}
+			for _, u := range Uses(e1) {
+				if x, ok := u.(*ssa.Store); ok {
+					if _, f, _, isf := FieldRef(x.Addr); isf && f == "err" {
+						return true
+					}
+				}
+			}
+			return false
+		}
+		// a page request: s.next(cursor), or an unexported Scanner method that performs exactly that
+		// request with the cursor it is given, records the error and hands the entry back
+		isFetchHelper := func(h *ssa.Function) bool {
+			if h == nil || h.Blocks == nil || isExportedName(h.Name()) || !strings.HasPrefix(FuncName(h), "rueidis.(*Scanner).") || len(h.Params) != 2 {
+				return false
+			}
+			reqs := Sites(h, isNext)
+			if len(reqs) != 1 {
+				return false
+			}
+			c := reqs[0].Instr.(*ssa.Call)
+			if c.Call.Args[0] != ssa.Value(h.Params[1]) || !errStoredOf(c) {
+				return false
+			}
+			if mp, _ := MustPassFromEntry(h, func(in ssa.Instruction) bool { return in == ssa.Instruction(c) }); !mp {
+				return false
+			}
+			e0 := extractOf(c, 0)
+			for _, b := range h.Blocks {
+				if ret, isr := b.Instrs[len(b.Instrs)-1].(*ssa.Return); isr && b.Comment != "recover" {
+					rv := RetVals(ret)
+					if len(rv) != 1 || rv[0] != e0 {
+						return false
+					}
+				}
+			}
+			return e0 != nil
+		}
+		var calls []Site
+		viaHelper := map[ssa.Instruction]bool{}
+		for _, s := range Sites(fn, func(in ssa.Instruction) bool {
+			if isNext(in) {
+				return true
+			}
+			c, ok := in.(*ssa.Call)
+			return ok && isFetchHelper(c.Call.StaticCallee())
 		}) {
 			calls = append(calls, s)
+			viaHelper[s.Instr] = !isNext(s.Instr)
 		}
 		r.Anchor("R46a", "scan: page requests (2)", len(calls) == 2)
 		var yieldCall *ssa.Call
@@ -34,10 +85,36 @@ func runC46(r *Report) {
 			yieldCall = s.Instr.(*ssa.Call)
 		}
 		r.Anchor("R46b", "scan: yield call", yieldCall != nil)
-		// the entry slot: every request's #0 result is stored to one local
+		// the current entry: every request's entry is stored to one local slot, or (value form) all
+		// requests' entries merge into one variable
 		var slot ssa.Value
+		var cur *ssa.Phi
 		slotOK := true
 		for _, s := range calls {
+			if viaHelper[s.Instr] {
+				// the entry is the helper's result; it must flow into the one merged variable
+				var ph *ssa.Phi
+				var st *ssa.Store
+				for _, u := range Uses(s.Instr.(*ssa.Call)) {
+					if x, ok := u.(*ssa.Phi); ok {
+						ph = x
+					}
+					if x, ok := u.(*ssa.Store); ok && x.Val == ssa.Value(s.Instr.(*ssa.Call)) {
+						st = x
+					}
+				}
+				switch {
+				case st != nil && (slot == nil || st.Addr == slot):
+					slot = st.Addr // the entry variable keeps its storage (its fields are addressed)
+				case ph != nil && (cur == nil || ph == cur):
+					cur = ph
+				default:
+					slotOK = false
+					continue
+				}
+				r.ObSite("R46a", s, "request-error-recorded", true, "the fetch helper stores the request's error in the scanner (checked in the helper)")
+				continue
+			}
 			e0 := extractOf(s.Instr.(*ssa.Call), 0)
 			var st *ssa.Store
 			if e0 != nil {
@@ -52,31 +129,33 @@ func runC46(r *Report) {
 				continue
 			}
 			slot = st.Addr
-			// error stored into s.err
-			e1 := extractOf(s.Instr.(*ssa.Call), 1)
-			errStored := false
-			if e1 != nil {
-				for _, u := range Uses(e1) {
-					if x, ok := u.(*ssa.Store); ok {
-						if _, f, _, isf := FieldRef(x.Addr); isf && f == "err" {
-							errStored = true
-						}
-					}
+			r.ObSite("R46a", s, "request-error-recorded", errStoredOf(s.Instr.(*ssa.Call)), "the error of a page request is stored in the scanner (exposed by Err and tested before continuing)")
+		}
+		if cur != nil {
+			// every edge of the merged variable is a page request
+			for _, e := range cur.Edges {
+				c, isc := e.(*ssa.Call)
+				if !isc || !viaHelper[c] {
+					slotOK = false
 				}
 			}
-			r.ObSite("R46a", s, "request-error-recorded", errStored, "the error of a page request is stored in the scanner (exposed by Err and tested before continuing)")
 		}
-		r.Ob("R46a", fn, "one-current-entry", fn.Pos(), slotOK && slot != nil, "every page request's entry replaces the one current entry")
+		r.Ob("R46a", fn, "one-current-entry", fn.Pos(), slotOK && (slot != nil) != (cur != nil), "every page request's entry replaces the one current entry")
 		fieldOfSlot := func(v ssa.Value, field string) bool {
+			if f, ok := v.(*ssa.Field); ok && cur != nil {
+				_, fname, base, isf := FieldRef(f)
+				return isf && fname == field && base == ssa.Value(cur)
+			}
 			u, ok := v.(*ssa.UnOp)
 			if !ok || u.Op != token.MUL {
 				return false
 			}
 			_, f, base, isf := FieldRef(u.X)
-			return isf && f == field && base == slot
+			return isf && f == field && base == slot && slot != nil
 		}
 		for _, s := range calls {
-			arg := s.Call().Common().Args[0]
+			args := s.Call().Common().Args
+			arg := args[len(args)-1] // the cursor (after the receiver for the helper form)
 			inLoop := false
 			for _, h := range fn.Blocks {
 				if IsLoopHeader(h) && h.Dominates(s.Block) {
